@@ -4,8 +4,8 @@ import "testing"
 
 func TestCompactLayout(t *testing.T) {
 	for in, want := range map[string]string{
-		"x := (a + b) - 1\n":        "x:=(a+b)-1\n",
-		"x := a - -1\n":             "x:=a- -1\n",
+		"x := (a + b) - 1\n":          "x:=(a+b)-1\n",
+		"x := a - -1\n":               "x:=a- -1\n",
 		"if a < b && c {\n\tx++\n}\n": "if a<b&&c {\n\tx++\n}\n",
 		"print(a, b - 1, \"s t\")\n":  "print(a,b-1,\"s t\")\n",
 	} {
